@@ -1582,8 +1582,12 @@ class MacroFunction(Macro):
                             nexttok = [nexttok]
                     if len(last) > 0 and len(nexttok) == 0:
                         # Pasting with an empty argument yields the other
-                        # operand unchanged.
-                        res_tokens.extend(last)
+                        # operand unchanged; like every substituted operand
+                        # it takes the spacing of the parameter it replaces.
+                        first = copy(last[0])
+                        first.prev_white = prev_white
+                        res_tokens.append(first)
+                        res_tokens.extend(last[1:])
                     elif len(last) > 0:
                         lex = Lexer(last[-1].token + nexttok[0].token)
                         tok = lex.tokenize_one()
@@ -1599,7 +1603,10 @@ class MacroFunction(Macro):
                             toadd[0].prev_white = prev_white
                         res_tokens.extend(toadd)
                     elif len(nexttok) > 0:
-                        res_tokens.extend(nexttok)
+                        first = copy(nexttok[0])
+                        first.prev_white = prev_white
+                        res_tokens.append(first)
+                        res_tokens.extend(nexttok[1:])
                     else:
                         # Keep a following ## from pasting an unrelated token.
                         res_tokens.append(placemarker)
